@@ -30,8 +30,12 @@ def check_program(ctx, line, sp, events, profile, stage):
     sig0 = {'profile': profile, 'top': U.top2(e), 'size': 'big' if sp.big else 'small'}
     detail0 = {'stage': stage, 'line': line, 'profile': profile, 'big': sp.big}
     nontriv = U.n_comb(e) >= 2 or U.has_nonlinear_leaf(e)
+    # spelling: every other program is built with the @ operator instead of * (alternating with the size class)
+    matmul = (hash(json.dumps(e, sort_keys=True)) % 2 == 0) != sp.big
+    sig0['spelling'] = '@' if matmul else '*'
+    detail0['matmul'] = matmul
     try:
-        op = U.build(e, sp)
+        op = U.build(e, sp, None, matmul)
     except Exception as ex:
         ctx.count([e, profile, sp.big], nontriv)
         if line.get('supported', True):
@@ -212,7 +216,7 @@ def replay(body):
     sp = U.Spaces(prof, big=d.get('big', False))
     print('program :', U.shape_of(line['prog']))
     try:
-        op = U.build(line['prog'], sp)
+        op = U.build(line['prog'], sp, None, d.get('matmul', False))
     except Exception as ex:
         print('build raised', type(ex).__name__, ex)
         print('REPRODUCED' if body['signature'].get('clause') == 'build-raised' else 'DIFFERENT')
